@@ -491,3 +491,64 @@ def rule_ctor_length_siblings(ctx):
         r.bad(Finding("ctor-length-siblings", f"{name}.__init__", f"stores `self._L = {src_of(odd.value)}` while its sibling stores `{src_of((b if odd is a else a).value)}`: the length worked out "
                                                                    "from `L` / `sites` is lost", where=f"{f_odd.module.relpath}:{odd.lineno}", operand="_L"))
     return r
+
+
+def rule_transpose_order_domain(ctx):
+    r = RuleResult(
+        "transpose-order-domain",
+        "`transpose(a, axes)` wants one entry per axis of the *result*, in the result's order (entry k names the input axis that becomes "
+        "axis k). In the MPS / MPO constructors the result layout is the local that is assigned string constants per branch (`'lrp'`, "
+        "`'lrud'` ...) and the input layout is the `shape` parameter: an axes list written as a comprehension has to enumerate the result "
+        "layout (following the iteration source through nested comprehensions) — enumerating the given layout yields the inverse permutation, "
+        "which only differs for layouts that are not self-inverse (three or more axes, cyclically shifted)",
+    )
+    n = 0
+    mod = ctx.prog.modules.get("quimb.tensor.tn1d.core")
+    for f in mod.all_functions:
+        if f.is_alias or isinstance(f.node, ast.Lambda) or f.parent is not None:
+            continue
+        ldefs = {}
+        for a in ast.walk(f.node):
+            if isinstance(a, ast.Assign) and len(a.targets) == 1 and isinstance(a.targets[0], ast.Name):
+                ldefs.setdefault(a.targets[0].id, []).append(a.value)
+
+        def source(e, depth=0):
+            """'given' / 'result' / None for the sequence whose order an expression follows."""
+            if depth > 4:
+                return None
+            if isinstance(e, (ast.ListComp, ast.GeneratorExp)) and len(e.generators) == 1:
+                return source(e.generators[0].iter, depth + 1)
+            if isinstance(e, ast.Call) and isinstance(e.func, ast.Name) and e.func.id in ("list", "tuple") and e.args:
+                return source(e.args[0], depth + 1)
+            if isinstance(e, ast.Name):
+                if e.id in f.params:
+                    return "given"
+                ds = ldefs.get(e.id, [])
+                if ds and all(isinstance(d, ast.Constant) and isinstance(d.value, str) for d in ds):
+                    return "result"
+                kinds = {source(d, depth + 1) for d in ds}
+                if len(kinds) == 1:
+                    return kinds.pop()
+            return None
+
+        for c in ast.walk(f.node):
+            if not (isinstance(c, ast.Call) and (dotted(c.func) or "").split(".")[-1] == "transpose" and len(c.args) == 2 and isinstance(c.args[1], ast.Name)):
+                continue
+            ds = ldefs.get(c.args[1].id, [])
+            comps = [d for d in ds if isinstance(d, ast.ListComp)]
+            if not comps or len(comps) != len(ds):
+                continue
+            kinds = {source(d) for d in comps}
+            if None in kinds:
+                continue
+            n += 1
+            q = f"{f.qualname}:transpose"
+            if kinds == {"result"}:
+                r.ok(q, sample={"constructor": f.qualname, "axes": src_of(comps[0])[:60], "enumerates": "the result layout"})
+            else:
+                r.bad(Finding("transpose-order-domain", f.qualname,
+                              f"`{c.args[1].id} = {src_of(comps[0])[:60]}` enumerates the *given* layout (a parameter) and is handed to transpose() as the axes of the result: "
+                              "that is the inverse of the permutation needed — wrong for every layout that is not its own inverse (e.g. shape='rlp', 'dlru')",
+                              where=f"{mod.relpath}:{c.lineno}", operand="axes-from-given"))
+    r.floor(n, 2, "constructor transposes with a comprehension for the axes")
+    return r
